@@ -110,6 +110,69 @@ def chk_unit(inp):
     return f
 
 
+def chk_history(inp):
+    """a result requested after every step of a history of unit changes on ONE metric object is self-consistent:
+    statistics = definitions on that result's own error values, values = original values x the exact factor, label names
+    the unit in force (statistics asked for before a conversion must not survive it)"""
+    from evo.core import metrics
+    from evo.core.units import Unit
+    e0 = np.array(inp["err"], dtype=float)
+    m = metrics.APE(metrics.PoseRelation.translation_part if inp["first"] in FACT else metrics.PoseRelation.rotation_angle_rad)
+    m.unit = Unit(inp["first"])
+    m.error = e0.copy()
+    cur = inp["first"]
+    fac = 1.0
+    f = []
+
+    def look(step):
+        res = m.get_result()
+        ea = np.asarray(res.np_arrays["error_array"], dtype=float)
+        if len(ea) != len(e0) or not np.allclose(ea, e0 * fac, rtol=1e-11, atol=0):
+            f.append("multiplied_by_the_exact_conversion_factor (step %d, unit %s)" % (step, cur))
+            return
+        le = ea.astype(np.longdouble)
+        exp = {"rmse": math.sqrt(float(np.mean(le**2))), "sse": float(np.sum(le**2)), "mean": float(np.mean(le)),
+               "median": float(np.median(ea)), "std": math.sqrt(float(np.mean((le - np.mean(le))**2))),
+               "min": float(ea.min()), "max": float(ea.max())}
+        both = [("get_result", res.stats), ("get_all_statistics", m.get_all_statistics())]
+        for who, st in both:
+            for k, x in exp.items():
+                if k not in st or not P.close(float(st[k]), x, 1e-9 if k != "std" else 1e-6):
+                    f.append("statistic_equals_its_definition[%s] after step %d (%s, unit %s): %r != %r"
+                             % (k, step, who, cur, st.get(k), x))
+        if m.unit is not Unit(cur):
+            f.append("unit_updated (step %d)" % step)
+        import re
+        if not re.search(r"(?<![A-Za-z])%s(?![A-Za-z])" % re.escape(cur), res.info["label"]):
+            f.append("label_names_the_unit (step %d: %r, unit %s)" % (step, res.info["label"], cur))
+
+    look(0)
+    for step, new in enumerate(inp["chain"], 1):
+        before = m.error.copy()
+        try:
+            m.change_unit(Unit(new))
+            conv = True
+        except metrics.MetricsException:
+            conv = False
+            if not np.array_equal(m.error, before) or m.unit is not Unit(cur):
+                f.append("refused_or_same_leaves_values_and_unit_untouched (step %d)" % step)
+        if conv and new != cur:
+            if cur in FACT and new in FACT:
+                fac = fac * FACT[cur] / FACT[new]
+            elif (cur, new) == ("rad", "deg"):
+                fac = fac * 180.0 / math.pi
+            elif (cur, new) == ("deg", "rad"):
+                fac = fac * math.pi / 180.0
+            else:
+                f.append("refused_iff_not_convertible %s->%s (step %d)" % (cur, new, step))
+                return f
+            cur = new
+        look(step)
+        if f:
+            break
+    return f
+
+
 def chk_companions(inp):
     """ape()/rpe(): one entry per value, referring to the pose the value belongs to; stored trajectories; labels"""
     from evo import main_ape, main_rpe
@@ -189,7 +252,7 @@ def chk_companions(inp):
     return f
 
 
-CHECKERS = {"stats": chk_stats, "unit": chk_unit, "companions": chk_companions}
+CHECKERS = {"stats": chk_stats, "unit": chk_unit, "history": chk_history, "companions": chk_companions}
 UNITS = ["unit-less", "mm", "cm", "m", "km", "s", "deg", "rad", "frames", "%"]
 
 
@@ -213,6 +276,13 @@ def _cases(tier, seed):
         for n_ in UNITS:
             yield ("unit", {"old": o, "new": n_, "err": np.abs(rng.normal(size=5))})
             yield ("unit", {"old": o, "new": n_, "err": []})
+    for it in range(40 if tier == "quick" else 1000):
+        first = ["m", "mm", "km", "cm", "rad", "deg"][it % 6]
+        pool = ["mm", "cm", "m", "km", "rad", "deg", "%"]
+        chain = [str(rng.choice(pool[:4] if first in FACT and it % 5 else pool)) for _ in range(1 + it % 3)]
+        if first in ("rad", "deg") and it % 5:
+            chain = [["deg", "rad"][(j + (first == "deg")) % 2] for j in range(1 + it % 3)]
+        yield ("history", {"first": first, "chain": chain, "err": np.abs(rng.normal(size=int(rng.integers(1, 30)))) + 0.01})
     rels = ["translation_part", "full_transformation", "rotation_angle_deg", "rotation_angle_rad", "rotation_part", "point_distance"]
     for it in range(24 if tier == "quick" else 400):
         yield ("companions", {"seed": 700 + it, "n": int(rng.integers(6, 40)), "which": "rpe", "relation": "point_distance_error_ratio",
@@ -230,7 +300,8 @@ def _cases(tier, seed):
 def bounded(tier, seed):
     return B.run(CHECKERS, _cases(tier, seed),
                  rule="error arrays 1..%s values, magnitudes 1e-12..1e6, constant arrays, single values: statistics vs. "
-                      "long-double definitions and the inequalities; all 10x10 ordered unit pairs (with values / empty); "
+                      "long-double definitions and the inequalities; all 10x10 ordered unit pairs (with values / empty); histories of "
+                      "1..3 unit changes on one metric object with a result requested after every step; "
                       "ape()/rpe() companion arrays, stored trajectories, labels" % ("1e4" if tier == "quick" else "1e6"),
                  bounds={"max_values": 2000, "seed": seed})
 
